@@ -1459,6 +1459,18 @@ class Interp:
                     return self.get_attr(args[0], args[1], node)
                 if len(args) == 3:
                     return args[2]
+            if name == "getattr" and len(args) >= 2 and isinstance(args[0], Class) and isinstance(args[1], str):
+                # class attribute through the MRO (plain or annotated assignment), methods, else the default
+                for k_ in args[0].mro():
+                    if args[1] in k_.class_assigns():
+                        return self.eval_in_module(k_.module, k_.class_assigns()[args[1]])
+                    for st in k_.node.body:
+                        if isinstance(st, ast.AnnAssign) and isinstance(st.target, ast.Name) and st.target.id == args[1] and st.value is not None:
+                            return self.eval_in_module(k_.module, st.value)
+                if args[0].lookup(args[1]) is not None:
+                    return self.get_attr(args[0], args[1], node)
+                if len(args) == 3:
+                    return args[2]
             if name == "hasattr" and isinstance(args[0], Obj) and isinstance(args[1], str):
                 return args[1] in args[0].attrs or args[0].cls.lookup(args[1]) is not None
             if name == "hasattr" and isinstance(args[0], Class) and isinstance(args[1], str):
